@@ -12,6 +12,7 @@ import (
 	"sort"
 	"strconv"
 	"strings"
+	"sync/atomic"
 	"testing"
 	"time"
 
@@ -206,6 +207,7 @@ func TestVerif_C02_h2recv(t *testing.T) {
 	defer ln.Close()
 	n := verifh.N(700, 20000)
 	lens := []int{0, 1, 2, 5, 100, 4095, 4096, 4097, 16383, 16384, 16385}
+	stalls := 0
 	for c := 0; c < n; c++ {
 		isHead := r.Intn(10) == 0
 		bl := verifh.Pick(r, lens)
@@ -404,102 +406,136 @@ func TestVerif_C02_h2recv(t *testing.T) {
 		for _, e := range evs {
 			evArgs = append(evArgs, c02EvArg(e))
 		}
-		var reads []int
-		var impl string
-		propOK := true
-		ptxt, panicked := verifh.Safely(func() {
-			done := make(chan error, 1)
-			go func() {
-				conn, err := ln.Accept()
+		type caseOut struct {
+			reads    []int
+			impl     string
+			propOK   bool
+			ptxt     string
+			panicked bool
+		}
+		outc := make(chan *caseOut, 1)
+		go func() {
+			co := &caseOut{propOK: true}
+			var reads []int
+			var impl string
+			propOK := true
+			defer func() {
+				co.reads, co.impl, co.propOK = reads, impl, propOK
+				outc <- co
+			}()
+			co.ptxt, co.panicked = verifh.Safely(func() {
+				done := make(chan error, 1)
+				go func() {
+					conn, err := ln.Accept()
+					if err != nil {
+						done <- err
+						return
+					}
+					c02Peer(conn, evs, done)
+				}()
+				conn, err := net.Dial("tcp", ln.Addr().String())
 				if err != nil {
-					done <- err
+					impl = "infra:" + err.Error()
 					return
 				}
-				c02Peer(conn, evs, done)
-			}()
-			conn, err := net.Dial("tcp", ln.Addr().String())
-			if err != nil {
-				impl = "infra:" + err.Error()
-				return
-			}
-			tr := &Transport{Options: &transport.Options{}}
-			tr.AllowHTTP = true
-			cc, err := tr.NewClientConn(conn)
-			if err != nil {
-				impl = "infra:" + err.Error()
-				return
-			}
-			defer cc.Close()
-			method := "GET"
-			if isHead {
-				method = "HEAD"
-			}
-			req, _ := http.NewRequest(method, "http://c02.invalid/x", nil)
-			type rtRes struct {
-				res *http.Response
-				err error
-			}
-			rc := make(chan rtRes, 1)
-			go func() {
-				res, err := cc.RoundTrip(req)
-				rc <- rtRes{res, err}
-			}()
-			var rr rtRes
-			select {
-			case rr = <-rc:
-			case <-time.After(20 * time.Second):
-				impl = "timeout:roundtrip"
-				return
-			}
-			if rr.err != nil {
-				impl = "error:" + c02H2ErrClass(rr.err)
-				return
-			}
-			res := rr.res
-			var data []byte
-			var last error
-			for len(reads) < 200000 {
-				k := nextRead()
-				reads = append(reads, k)
-				p := make([]byte, k)
-				m, err := res.Body.Read(p)
-				data = append(data, p[:m]...)
-				last = err
+				tr := &Transport{Options: &transport.Options{}}
+				tr.AllowHTTP = true
+				cc, err := tr.NewClientConn(conn)
 				if err != nil {
-					break
+					impl = "infra:" + err.Error()
+					return
 				}
-			}
-			res.Body.Close()
-			impl = "status=" + strconv.Itoa(res.StatusCode) + " hdr=" + c02Canon(res.Header, c02Keep) +
-				" err=" + c02H2ErrClass(last) + " data=" + verifh.Hex(string(data)) + " trailer=" + c02Canon(res.Trailer, nil)
-			if mut == "none" || mut == "cl-dup" || mut == "nobody-status-cl" {
-				want := body
+				defer cc.Close()
+				method := "GET"
 				if isHead {
-					want = ""
+					method = "HEAD"
 				}
-				if string(data) != want || last != io.EOF || strconv.Itoa(res.StatusCode) != status {
-					propOK = false
+				req, _ := http.NewRequest(method, "http://c02.invalid/x", nil)
+				type rtRes struct {
+					res *http.Response
+					err error
 				}
-				wt := http.Header{}
-				if !isHead && !headEnds {
-					for _, tr := range trailers {
-						wt.Add(tr.k, tr.v)
+				rc := make(chan rtRes, 1)
+				go func() {
+					res, err := cc.RoundTrip(req)
+					rc <- rtRes{res, err}
+				}()
+				var rr rtRes
+				select {
+				case rr = <-rc:
+				case <-time.After(20 * time.Second):
+					impl = "timeout:roundtrip"
+					return
+				}
+				if rr.err != nil {
+					impl = "error:" + c02H2ErrClass(rr.err)
+					return
+				}
+				res := rr.res
+				var data []byte
+				var last error
+				// watchdog: a read that never returns is a failure of the case, not of the lane
+				var timedOut atomic.Bool
+				wd := time.AfterFunc(10*time.Second, func() {
+					timedOut.Store(true)
+					conn.Close()
+				})
+				defer wd.Stop()
+				for len(reads) < 200000 {
+					k := nextRead()
+					reads = append(reads, k)
+					p := make([]byte, k)
+					m, err := res.Body.Read(p)
+					data = append(data, p[:m]...)
+					last = err
+					if err != nil {
+						break
 					}
 				}
-				if c02Canon(res.Trailer, nil) != c02Canon(wt, nil) {
+				res.Body.Close()
+				if timedOut.Load() {
+					impl = "timeout:body-read-stalled after " + strconv.Itoa(len(data)) + " bytes"
+					return
+				}
+				impl = "status=" + strconv.Itoa(res.StatusCode) + " hdr=" + c02Canon(res.Header, c02Keep) +
+					" err=" + c02H2ErrClass(last) + " data=" + verifh.Hex(string(data)) + " trailer=" + c02Canon(res.Trailer, nil)
+				if mut == "none" || mut == "cl-dup" || mut == "nobody-status-cl" {
+					want := body
+					if isHead {
+						want = ""
+					}
+					if string(data) != want || last != io.EOF || strconv.Itoa(res.StatusCode) != status {
+						propOK = false
+					}
+					wt := http.Header{}
+					if !isHead && !headEnds {
+						for _, tr := range trailers {
+							wt.Add(tr.k, tr.v)
+						}
+					}
+					if c02Canon(res.Trailer, nil) != c02Canon(wt, nil) {
+						propOK = false
+					}
+				}
+				if !strings.HasPrefix(body, string(data)) {
 					propOK = false
 				}
-			}
-			if !strings.HasPrefix(body, string(data)) {
-				propOK = false
-			}
-			if mut == "cl-small" && last == io.EOF && len(data) > clv {
-				propOK = false
-			}
-			if mut == "cl-large" && last == io.EOF && !isHead && !headEnds {
-				propOK = false // shorter than declared must not end cleanly
-			}
-		})
+				if mut == "cl-small" && last == io.EOF && len(data) > clv {
+					propOK = false
+				}
+				if mut == "cl-large" && last == io.EOF && !isHead && !headEnds {
+					propOK = false // shorter than declared must not end cleanly
+				}
+			})
+		}()
+		var co *caseOut
+		select {
+		case co = <-outc:
+		case <-time.After(30 * time.Second):
+			// the implementation spins or blocks where nothing can interrupt it
+			co = &caseOut{impl: "timeout:stalled (case did not return within 30s)", propOK: false}
+		}
+		reads, impl, propOK, ptxt, panicked := co.reads, co.impl, co.propOK, co.ptxt, co.panicked
 		evArg := "none"
 		if len(evArgs) > 0 {
 			evArg = strings.Join(evArgs, "/")
@@ -510,9 +546,17 @@ func TestVerif_C02_h2recv(t *testing.T) {
 			s.Crash(line, human, ptxt, "")
 			continue
 		}
-		if strings.HasPrefix(impl, "infra:") || strings.HasPrefix(impl, "timeout:") {
+		if strings.HasPrefix(impl, "infra:") {
 			s.Count("infra")
 			t.Logf("skipped: %s %s", impl, human)
+			continue
+		}
+		if strings.HasPrefix(impl, "timeout:") {
+			stalls++
+			s.Case(line, impl, false, "", false, human)
+			if stalls >= 4 {
+				break
+			}
 			continue
 		}
 		s.Count("mut:" + mut)
@@ -547,51 +591,97 @@ func TestVerif_C02_h2databuf(t *testing.T) {
 	r := s.Rand()
 	n := verifh.N(400, 20000)
 	sizes := []int{0, 1, 2, 100, 1023, 1024, 1025, 2047, 2048, 2049, 4095, 4096, 4097, 8191, 8192, 8193, 16383, 16384, 16385, 40000}
-	for c := 0; c < n; c++ {
+	stalls := 0
+	for c := 0; c < n && stalls < 3; c++ {
 		exp := int64(verifh.Pick(r, []int{-1, 0, 1, 1000, 5000, 20000, 100000}))
-		b := &dataBuffer{expected: exp}
-		var fifo []byte
-		ok := true
-		total := 0
-		crossed := false
-		var trace []string
-		for i := 0; i < 3+r.Intn(30) && ok; i++ {
-			if r.Intn(2) == 0 || len(fifo) == 0 {
+		// the op script is drawn first; the run happens in a goroutine so that a Read that
+		// never returns fails the case instead of hanging the lane
+		type op struct {
+			write bool
+			k     int
+			p     []byte
+		}
+		var ops []op
+		pending := 0
+		for i := 0; i < 3+r.Intn(30); i++ {
+			if r.Intn(2) == 0 || pending == 0 {
 				k := verifh.Pick(r, sizes)
 				if r.Intn(3) == 0 {
 					k = r.Intn(3000)
 				}
-				p := []byte(verifh.RandBytes(r, k, ""))
-				m, err := b.Write(p)
-				if m != k || err != nil {
-					ok = false
-				}
-				fifo = append(fifo, p...)
-				total += k
-				trace = append(trace, "w"+strconv.Itoa(k))
+				ops = append(ops, op{write: true, k: k, p: []byte(verifh.RandBytes(r, k, ""))})
+				pending += k
 			} else {
 				k := 1 + r.Intn(70000)
 				if r.Intn(2) == 0 {
 					k = 1 + r.Intn(2000)
 				}
-				p := make([]byte, k)
-				m, err := b.Read(p)
-				want := k
-				if want > len(fifo) {
-					want = len(fifo)
+				ops = append(ops, op{k: k})
+				if k > pending {
+					k = pending
 				}
-				if err != nil || m != want || !bytes.Equal(p[:m], fifo[:want]) {
+				pending -= k
+			}
+		}
+		var trace []string
+		for _, o := range ops {
+			if o.write {
+				trace = append(trace, "w"+strconv.Itoa(o.k))
+			} else {
+				trace = append(trace, "r"+strconv.Itoa(o.k))
+			}
+		}
+		type outT struct{ ok, crossed bool }
+		outc := make(chan outT, 1)
+		go func() {
+			b := &dataBuffer{expected: exp}
+			var fifo []byte
+			ok, crossed := true, false
+			for _, o := range ops {
+				if !ok {
+					break
+				}
+				if o.write {
+					m, err := b.Write(o.p)
+					if m != o.k || err != nil {
+						ok = false
+					}
+					fifo = append(fifo, o.p...)
+				} else {
+					p := make([]byte, o.k)
+					m, err := b.Read(p)
+					want := o.k
+					if want > len(fifo) {
+						want = len(fifo)
+					}
+					if want == 0 {
+						// reading an empty buffer is an error by contract (errReadEmpty)
+						if m != 0 {
+							ok = false
+						}
+						continue
+					}
+					if err != nil || m != want || !bytes.Equal(p[:m], fifo[:want]) {
+						ok = false
+					}
+					fifo = fifo[want:]
+				}
+				if b.Len() != len(fifo) {
 					ok = false
 				}
-				fifo = fifo[want:]
-				trace = append(trace, "r"+strconv.Itoa(k))
+				if len(b.chunks) > 1 {
+					crossed = true
+				}
 			}
-			if b.Len() != len(fifo) {
-				ok = false
-			}
-			if len(b.chunks) > 1 {
-				crossed = true
-			}
+			outc <- outT{ok, crossed}
+		}()
+		var ok, crossed bool
+		select {
+		case o := <-outc:
+			ok, crossed = o.ok, o.crossed
+		case <-time.After(10 * time.Second):
+			ok = false
+			stalls++
 		}
 		s.Count(fmt.Sprintf("expected:%d", exp))
 		s.Observe(fmt.Sprintf("databuf#%d exp=%d %s", c, exp, strings.Join(trace, ",")), ok, "", crossed, fmt.Sprintf("exp=%d ops=%s", exp, strings.Join(trace, ",")), "dataBuffer diverged from FIFO")
